@@ -93,7 +93,7 @@ LANE_REQUIRED = ["family:fixed_x_fixed", "family:small_grid", "family:solve_sum"
                  "lane:load_store_set_shift_checked"]
 MAT_REQUIRED = ["band:probed_lane_products_noncanonical", "band:probed_two_or_more_noncanonical_addends_in_one_lane",
                 "band:state_positions_with_product_in_[p,2^64)"] + \
-    ["matfam:%s:%s" % (f, w) for f in ("uniform", "boundary", "band_directed", "three_times_5555", "quotient_like") for w in ("8bit", "full")]
+    ["matfam:%s:%s" % (f, w) for f in ("uniform", "boundary", "band_directed", "three_times_5555", "quotient_like", "low_word_8bit_high_word_set") for w in ("8bit", "full")]
 LANE_RULE = ("every lane of every call carries a different operand pair (lane position rotated per call); pairs from the fixed boundary set "
              "cross product, the '_small' grid (high halves equal/adjacent/sign-flipped, low halves summing just below/at/above 2^32, "
              "b up to and including 0xFFFFFFFF00000000), solve-for sums around 2^64/p/2p, 128-bit product targets (hi_lo=0xFFFFFFFF, "
@@ -177,7 +177,7 @@ def check_shim_symbols(binary):
     """the stand-in implements exactly the runtime symbols the library imports; a new one makes the run inconclusive"""
     import subprocess
     out = subprocess.run(["nm", "-u", binary], capture_output=True, text=True).stdout
-    bad = [l.split()[-1] for l in out.splitlines() if ("GOMP_" in l or " omp_" in l)]
+    bad = [l.split()[-1] for l in out.splitlines() if ("GOMP_" in l or " omp_" in l or "GOACC" in l)]
     if bad:
         raise vfw.Inconclusive("OpenMP runtime symbols not provided by the stand-in: %s" % bad)
 
@@ -241,7 +241,8 @@ POS_REQUIRED = {
     "C08": ["builder:" + b for b in ("merkletree_seq", "merkletree_avx", "merkletree_avx512", "merkletree", "merkletree_batch_seq", "merkletree_batch_avx",
                                      "merkletree_batch_avx512", "merkletree_batch")] +
            ["shape:one_row", "shape:zero_columns", "shape:row_passthrough(<=4 elements)", "shape:dim>1", "batch:even", "batch:ragged_last",
-            "batch:larger_than_cols", "threads:default(0)", "threads:more_than_rows", "oracle:known_answers_checked", "tables:pinned_hash_checked"],
+            "batch:larger_than_cols", "threads:default(0)", "threads:more_than_rows", "oracle:known_answers_checked", "tables:pinned_hash_checked",
+            "threadlimit2:builder:merkletree_seq", "threadlimit2:builder:merkletree_batch_avx512"],
 }
 
 
@@ -265,6 +266,12 @@ def check_poseidon(prop, tier, seed, work, t0):
              "asan": ["--thin", scaled(tier, 6, 2), "--slice", scaled(tier, 3, 2)], "asan512": ["--thin", scaled(tier, 4, 1), "--slice", scaled(tier, 3, 2)]}
     for i, fl in enumerate(("prod512", "prod", "asan512", "asan")):
         res.merge(vfw.run_shards(work, bins["pos-" + fl], prop, tier, seed + 1000 * i, NCPU, a[fl], tag=fl, timeout=to))
+    if prop == "C08":
+        # the runtime may deliver fewer threads than a builder asks for (thread limit, nested region): the tree must not depend on it
+        r2 = vfw.run_shards(work, bins["pos-prod512"], prop, tier, seed + 77, NCPU, ["--thin", scaled(tier, 12, 3)], tag="prod512-threadlimit2", timeout=to,
+                            env={"OMP_THREAD_LIMIT": "2"})
+        r2.counters = {("threadlimit2:" + k if k.startswith("builder:") else k): v for k, v in r2.counters.items()}
+        res.merge(r2)
     return vfw.finalize(prop, tier, seed, res, t0, POS_RULE[prop], assumptions=ASSUME_COMMON + [
         "the specification is the optimised-form Poseidon of the reference implementation with the library's own tables C, S, M, P (pinned by hash, and the oracle reproduces the two published known answers)"],
         required=POS_REQUIRED[prop], replay_info={"harness": "poseidon.cpp", "how": "./check %s --replay <file>" % prop})
@@ -308,7 +315,7 @@ C12_RULE = ("workloads: NTT/INTT/extendPol configurations up to 2^6 (quick) / 2^
             "execution. evaluations = executions compared; distinct = workloads; all non-trivial (each enters >= 1 parallel region with > 1 member).")
 C12_REQUIRED = ["mode:threads", "mode:seq", "mode:libgomp", "hook:revperm:branch0", "hook:revperm:branch1", "hook:revperm:branch2", "hook:revperm:branch3",
                 "hook:ntt_pass:writeback0", "hook:ntt_pass:writeback1", "hook:ntt_pass:writeback2", "team:1", "team:2", "team:3", "team:4", "team:7", "team:8", "team:16", "team:33",
-                "team:nonpositive_thread_argument", "team:delivered_smaller_than_requested", "limit3:team:33", "threads:runs_with_injected_startup_delays", "omp_shim:regions_with_permuted_member_order",
+                "team:nonpositive_thread_argument", "team:delivered_smaller_than_requested", "limit3:team:33", "onecpu:team:33", "threads:runs_with_injected_startup_delays", "omp_shim:regions_with_permuted_member_order",
                 "omp_shim:distinct_team_member_orders(capped_8192_per_process)", "tsan:processes_completed"] + \
     ["workload:" + w for w in ("NTT", "INTT", "extendPol", "merkletree_seq", "merkletree_avx", "merkletree_avx512", "merkletree", "merkletree_batch_seq",
                                "merkletree_batch_avx", "merkletree_batch_avx512", "merkletree_batch", "parcpy", "parSetZero")]
@@ -319,29 +326,44 @@ def check_races(prop, tier, seed, work, t0):
     if not vfw.have_avx512():
         raise vfw.Inconclusive("this CPU has no AVX-512F; the AVX-512 Merkle builders cannot be executed")
     libs = ["goldilocks_base_field.cpp", "goldilocks_cubic_extension.cpp", "ntt_goldilocks.cpp", "poseidon_goldilocks.cpp"]
-    bins = vfw.build_many(work, [{"name": "races-" + fl, "flavour": fl, "srcs": [H("races.cpp")], "libsrcs": libs} for fl in ("tsan512", "shim512", "prod512")])
-    check_shim_symbols(bins["races-tsan512"])
-    check_shim_symbols(bins["races-shim512"])
+    res = vfw.Results()
     th = tier == "thorough"
     to = 10800 if th else 1500
-    res = vfw.Results()
-    logbase = work.path("tsanlog")
-    r = vfw.run_shards(work, bins["races-tsan512"], prop, tier, seed, NCPU, ["--mode", "threads", "--nofork"], tag="tsan",
-                       env={"TSAN_OPTIONS": "halt_on_error=0:log_path=%s:history_size=4:report_signal_unsafe=0" % logbase}, expect_exit=(0, 66), timeout=to)
-    reports, nrep = vfw.parse_tsan_logs(logbase + ".*")
-    for key, excerpt in reports.items():
-        r.violations.setdefault("C12:" + key, {"report": excerpt, "_run": "tsan"})
-    r.counters["tsan:reports_total"] = nrep
-    r.counters["tsan:distinct_reports"] = len(reports)
-    r.counters["tsan:processes_completed"] = sum(1 for _ in range(NCPU)) if r.counters.get("mode:threads", 0) == NCPU else 0
-    res.merge(r)
-    res.merge(vfw.run_shards(work, bins["races-shim512"], prop, tier, seed, NCPU, ["--mode", "seq", "--nofork"], tag="shim-seq", timeout=to))
+    bins = vfw.build_many(work, [{"name": "races-prod512", "flavour": "prod512", "srcs": [H("races.cpp")], "libsrcs": libs}])
+    shim_ok = True
+    try:
+        bins.update(vfw.build_many(work, [{"name": "races-" + fl, "flavour": fl, "srcs": [H("races.cpp")], "libsrcs": libs} for fl in ("tsan512", "shim512")]))
+        check_shim_symbols(bins["races-tsan512"])
+        check_shim_symbols(bins["races-shim512"])
+    except vfw.Inconclusive as ex:
+        # the library uses an OpenMP construct the stand-in does not provide: the TSan and permuted-order parts cannot run (inconclusive),
+        # the libgomp parts below still can and may still find a difference
+        shim_ok = False
+        res.inconclusive.append("OpenMP stand-in unusable for this tree: " + str(ex)[:600])
+    reports, nrep = {}, 0
+    if shim_ok:
+        logbase = work.path("tsanlog")
+        r = vfw.run_shards(work, bins["races-tsan512"], prop, tier, seed, NCPU, ["--mode", "threads", "--nofork"], tag="tsan",
+                           env={"TSAN_OPTIONS": "halt_on_error=0:log_path=%s:history_size=4:report_signal_unsafe=0" % logbase}, expect_exit=(0, 66), timeout=to)
+        reports, nrep = vfw.parse_tsan_logs(logbase + ".*")
+        for key, excerpt in reports.items():
+            r.violations.setdefault("C12:" + key, {"report": excerpt, "_run": "tsan"})
+        r.counters["tsan:reports_total"] = nrep
+        r.counters["tsan:distinct_reports"] = len(reports)
+        r.counters["tsan:processes_completed"] = NCPU if r.counters.get("mode:threads", 0) == NCPU else 0
+        res.merge(r)
+        res.merge(vfw.run_shards(work, bins["races-shim512"], prop, tier, seed, NCPU, ["--mode", "seq", "--nofork"], tag="shim-seq", timeout=to))
     res.merge(vfw.run_shards(work, bins["races-prod512"], prop, tier, seed, 8, ["--mode", "libgomp", "--nofork"], tag="libgomp", timeout=to))
     # libgomp delivering fewer threads than requested (thread limit 3)
     r3 = vfw.run_shards(work, bins["races-prod512"], prop, tier, seed, 8, ["--mode", "libgomp", "--nofork", "--thin", "24"], tag="libgomp-limit3", timeout=to,
                         env={"OMP_THREAD_LIMIT": "3"})
     r3.counters = {("limit3:" + k if k.startswith("team:") else k): v for k, v in r3.counters.items()}
     res.merge(r3)
+    # all team members time-sliced on ONE cpu: a member that runs ahead of the one it silently depends on becomes the common case
+    r1 = vfw.run_shards(work, bins["races-prod512"], prop, tier, seed + 5, 8, ["--mode", "libgomp", "--nofork", "--thin", "12"], tag="libgomp-one-cpu", timeout=to,
+                        wrapper=["taskset", "-c", "0-1"], env={"OMP_WAIT_POLICY": "passive"})
+    r1.counters = {("onecpu:" + k if k.startswith("team:") else k): v for k, v in r1.counters.items()}
+    res.merge(r1)
     extra = {"tsan_reports": nrep, "tsan_distinct_reports": len(reports)}
     return vfw.finalize(prop, tier, seed, res, t0, C12_RULE, assumptions=ASSUME_COMMON + [
         "ThreadSanitizer sees all synchronisation because fork/join are plain pthread_create/pthread_join in the stand-in (stock libgomp is not used under TSan: its barriers are invisible to TSan)",
